@@ -89,7 +89,10 @@ func (d *deferStreamLabelsVisitor) EnterDirective(ref int) {
 
 	labelString := d.operation.StringValueContentString(labelValue.Ref)
 
-	if previous, exists := d.seenLabels[labelString]; exists {
+	// The normalization walker revisits a selection set after a sibling node was
+	// removed (@skip(if:true) / @include(if:false)), so the same directive can be
+	// entered more than once: that is not a second use of the label.
+	if previous, exists := d.seenLabels[labelString]; exists && previous.directiveRef != ref {
 		previousDirectiveName := d.operation.DirectiveNameBytes(previous.directiveRef)
 		d.StopWithExternalErr(operationreport.ErrDeferStreamDirectiveLabelMustBeUnique(
 			directiveName,
